@@ -383,6 +383,55 @@ def s10(ctx, rep):
             "outside the min/max switch: the cutoff is the mirrored entry for mode 'max'")
 
 
+def s5c(ctx, rep, clause="S5"):
+    """every call that tells a rung system how many of its lowest rungs to skip passes the number that belongs to the trial's
+    bracket: the second result of _get_rung_system_for_bracket_id (directly, or through _get_rung_system at the position
+    that carries it) - never the bracket id or anything else of type int"""
+    P = ctx.P
+    c = P.cls("HyperbandBracketManager")
+    g2 = c.methods["_get_rung_system"]
+    r2 = [r.value for r in returns_of(g2) if isinstance(r.value, ast.Tuple)]
+    pos_skip = None
+    for i, e in enumerate(r2[0].elts if r2 else []):
+        if isinstance(e, ast.Name):
+            for d in local_defs(g2, e.id):
+                if isinstance(d, tuple) and d[0] == "unpack" and fn_name(d[1]) == "_get_rung_system_for_bracket_id" and d[2] == 1:
+                    pos_skip = i
+    if pos_skip is None:
+        raise AnchorError("_get_rung_system: position of the skip count not found")
+    # callee parameters called skip_rungs, by position
+    rs = P.cls("RungSystem")
+    skip_param_pos = {}
+    for k in P.all_subclasses(rs, strict=False):
+        for m in k.methods.values():
+            ps = [p_ for p_ in m.params if p_ != "self"]
+            if "skip_rungs" in ps:
+                skip_param_pos.setdefault(m.name, ps.index("skip_rungs"))
+    n = 0
+    for m in c.methods.values():
+        skipvars = set()
+        for x in walk_shallow(m.node):
+            if isinstance(x, ast.Assign) and isinstance(x.value, ast.Call) and isinstance(x.targets[0], ast.Tuple):
+                cal = fn_name(x.value)
+                idx = 1 if cal == "_get_rung_system_for_bracket_id" else pos_skip if cal == "_get_rung_system" else None
+                if idx is not None and idx < len(x.targets[0].elts) and isinstance(x.targets[0].elts[idx], ast.Name):
+                    skipvars.add(x.targets[0].elts[idx].id)
+        for x in walk_shallow(m.node):
+            if isinstance(x, ast.Call) and fn_name(x) in skip_param_pos and isinstance(x.func, ast.Attribute) and not (
+                    isinstance(x.func.value, ast.Name) and x.func.value.id == "self"):
+                a = kwarg(x, "skip_rungs", skip_param_pos[fn_name(x)])
+                if a is None:
+                    continue
+                n += 1
+                ok = isinstance(a, ast.Name) and a.id in skipvars
+                rep.put(ok, clause, "taint", f"HyperbandBracketManager.{m.name}: {fn_name(x)}(skip_rungs=...) gets the skip count of the trial's bracket", m, x,
+                        f"skip_rungs={U(a)}", f"`{U(a)}` is passed as skip_rungs but is not the skip count returned for the bracket (with a rung system "
+                        "per bracket the skip count is 0 and the bracket id is not): the trial's own lowest rung levels are skipped, or pending "
+                        "levels are registered up to a milestone that is not the trial's first one")
+    if n < 4:
+        raise AnchorError(f"HyperbandBracketManager: {n} calls with a skip_rungs argument (5 confirmed)")
+
+
 def s11(ctx, rep):
     """found thin by the generic mutation audit"""
     from . import c15
@@ -419,4 +468,5 @@ def run(ctx, rep, tier="quick"):
     s8(ctx, rep)
     s9(ctx, rep)
     s10(ctx, rep)
+    s5c(ctx, rep)
     s11(ctx, rep)
